@@ -53,6 +53,7 @@ package controllers
 //@   modifies *
 
 //@ func (*UpstreamClusterController).checkUpstreamServerNameConflict props C11
+//@   requires [latest] cluster == latestobj
 //@   modifies nothing
 //@   loop 0: invariant [t] true
 
